@@ -174,7 +174,29 @@ func timed(f func()) time.Duration {
 	return time.Since(t)
 }
 
+// scaledBound is the 10 s bound stretched by how slow this machine is right
+// now: mieru's waits are loops of one-millisecond sleeps and timers, which an
+// overloaded machine (load several times the core count) stretches several
+// fold. 100 such sleeps take about 0.11 s on an idle machine; the bound grows
+// in proportion, up to 45 s - still "seconds, not the 60-120 s idle timeout".
+func scaledBound() time.Duration {
+	t := time.Now()
+	for i := 0; i < 100; i++ {
+		time.Sleep(time.Millisecond)
+	}
+	f := float64(time.Since(t)) / float64(120*time.Millisecond)
+	if f < 1 {
+		f = 1
+	}
+	b := time.Duration(float64(10*time.Second) * f)
+	if b > 45*time.Second {
+		b = 45 * time.Second
+	}
+	return b
+}
+
 func propStop(c StopCase) (o pbt.Outcome) {
+	bound := scaledBound()
 	before, _ := mieruGoroutines()
 	cfg := e2e.Config{UDP: c.UDP, NoWait: c.NoWait, RawClient: c.RawClient, ClientPattern: c.Pattern, ServerPattern: c.Pattern}
 	sn := simnet.NewStreamNet(simnet.StreamOpts{})
